@@ -57,3 +57,13 @@ def _percent(self, other):
 
 if _orig_percent is not None:
     _core._PATCH_REGISTRATIONS[str.__mod__] = _percent
+
+
+# --- no short-circuiting ----------------------------------------------------------------------
+# CrossHair may replace a call to a contracted function (including its own patch of builtin hash())
+# by a fresh symbolic return value.  Every function here is to be *executed*, never summarised.
+def _never_shortcircuit(*a, **k):
+    return None
+
+
+_core.consider_shortcircuit = _never_shortcircuit
